@@ -208,7 +208,7 @@ pub mod dom {
     pub static mut PARENT: [u8; MAXN] = [255; MAXN];
     pub static mut TEXT: [u8; MAXN] = [0; MAXN];             // index into TEXTS (leaf text)
     pub const TEXTS: [&str; 21] = ["", ".", "\u{2026}", "+", "x", "1", "-", "-1", "arc", "sin", "arcsin", "|", "||", "\u{2016}", "\u{2212}", "\u{2212}1", "?", "AB", "A", "B", "\u{a0}"];
-    pub const NAMES: [&str; 11] = ["mi", "none", "mprescripts", "mmultiscripts", "mtext", "mrow", "mn", "mo", "msub", "mfrac", "mphantom"];
+    pub const NAMES: [&str; 13] = ["mi", "none", "mprescripts", "mmultiscripts", "mtext", "mrow", "mn", "mo", "msub", "mfrac", "mphantom", "msup", "msubsup"];
     #[derive(Clone, Copy, PartialEq, Eq, Debug)] pub struct Element<'a> { pub id: u8, pub p: PhantomData<&'a ()> }
     #[derive(Clone, Copy, PartialEq, Eq, Debug)] pub enum ChildOfElement<'a> { Element(Element<'a>) }
     #[derive(Clone, Copy)] pub struct Document<'a>(pub PhantomData<&'a ()>);
@@ -282,7 +282,7 @@ pub mod dom {
     pub fn as_element<'a>(c: ChildOfElement<'a>) -> Element<'a> { let ChildOfElement::Element(e) = c; e }
     pub fn get_parent<'a>(e: Element<'a>) -> Element<'a> { let p = unsafe { PARENT[e.id as usize] }; assert!(p != 255, "get_parent of a detached node"); Element { id: p, p: PhantomData } }
     pub fn set_leaf<'a>(e: Element<'a>, code: u8) { unsafe { TEXT[e.id as usize] = code; } }
-    pub fn kind_of_name(nm: &str) -> u8 { match nm { "mi" => 0, "none" => 1, "mprescripts" => 2, "mmultiscripts" => 3, "mtext" => 4, "mrow" => 5, "mn" => 6, "mo" => 7, "msub" => 8, "mfrac" => 9, "mphantom" => 10, _ => 0 } }
+    pub fn kind_of_name(nm: &str) -> u8 { match nm { "mi" => 0, "none" => 1, "mprescripts" => 2, "mmultiscripts" => 3, "mtext" => 4, "mrow" => 5, "mn" => 6, "mo" => 7, "msub" => 8, "mfrac" => 9, "mphantom" => 10, "msup" => 11, "msubsup" => 12, _ => 0 } }
     pub fn set_mathml_name<'a>(e: Element<'a>, nm: &str) { unsafe { KIND[e.id as usize] = kind_of_name(nm); } }
     pub fn create_mathml_element<'a>(_doc: &Document<'a>, nm: &str) -> Element<'a> {
         let kind = kind_of_name(nm);
